@@ -678,6 +678,104 @@ class Gen:
                 "filters": c.get("filters", [])}
 
     def history(self):
+        """a history on one instance (_history1); a quarter of them is then set in a process with other instances"""
+        c = self._history1()
+        if self.r.random() < 0.25:
+            return self.multi(c)
+        return c
+
+    @staticmethod
+    def pipe_words(c):
+        """the identifier words written after a '|' anywhere in the history"""
+        out = []
+        srcs = [t for _n, t in c["templates"]]
+        for op in (c["calls"] if "calls" in c else [c]):
+            srcs += [op.get("main") or [], op.get("tpl") or []]
+        for ns in srcs:
+            for nd in ns:
+                for l in ([nd] if nd[0] not in ("I", "E") else nd[3] + ((nd[4] or []) if nd[0] == "I" else [])):
+                    if l[0] == "P" and WORD.match(l[2]) and l[2] not in out:
+                        out.append(l[2])
+        return out
+
+    def multi(self, c):
+        """the history c (instance 0) in a process with 1-2 OTHER Ribosome instances: constructed at any position (before
+        everything, in between, after filters were stored elsewhere) with a filter table, templates (the same names with
+        the same or other texts, or none) and a strict flag of their own; 1-4 further operations on any instance: a
+        filter stored after construction (r.filters[w] = f, half of them through a registration method when the class
+        has one; w mostly a word the history writes after a '|' - a default, a built-in or a custom filter name),
+        a render of the history repeated on another instance, a registration on another instance under a name the
+        history includes; finally a render on most instances that names the stored filters and the registered names"""
+        r = self.r
+        calls = [dict(op) for op in (c["calls"] if "calls" in c else [{"main": c["main"], "ctx": c["ctx"]}])]
+        names = [n for n, _ in c["templates"]] + [op["name"] for op in calls if op.get("op") == "register" and op.get("name")]
+        names = sorted(set(names))
+        n_other = r.choice([1, 1, 2])
+        words = self.pipe_words({**c, "calls": calls})
+        idwords = [w for w in DEFAULTS + CUSTOM_NAMES if WORD.match(w)]
+        pool = words * 3 + idwords + list(FILTERS)
+
+        def ctx():
+            return [[v, self.value(v)] for v in VARS if r.random() < 0.6]
+
+        def pos_new(j):          # index of the construction of instance j (instance 0: before everything)
+            if j == 0:
+                return -1
+            seen = 0
+            for i, op in enumerate(calls):
+                if op.get("op") == "new":
+                    seen += 1
+                    if seen == j:
+                        return i
+            raise ValueError(j)
+        # the constructions, in order, at non-decreasing positions
+        at = sorted(r.randint(0, len(calls)) for _ in range(n_other))
+        for j, p in enumerate(at):
+            k = r.random()
+            if k < 0.4:
+                tpls = [[n, t] for n, t in c["templates"]]
+            elif k < 0.8:
+                tpls = [[n, self.nodes(r.randint(1, 2), [])] for n in names if r.random() < 0.6]
+            else:
+                tpls = []
+            calls.insert(p + j, {"op": "new", "filters": self.table() if r.random() < 0.4 else [], "templates": tpls,
+                                 "strict": c["strict"] if r.random() < 0.7 else (r.random() < 0.3)})
+        stored = []
+        renders = [op for op in calls if op.get("op") in (None, "render_obj", "translate")]
+        for _ in range(r.randint(1, 4)):
+            j = r.randint(0, n_other)
+            k = r.random()
+            if k < 0.55 or not renders:
+                w = r.choice(pool)
+                stored.append(w)
+                op = {"op": "set_filter", "name": w, "kind": r.choice(sorted(CUSTOM)), "how": r.choice(["assign", "api"])}
+            elif k < 0.85:
+                op = {x: y for x, y in r.choice(renders).items() if x != "on"}
+            else:
+                nm = r.choice(names + ["t9"])
+                op = {"op": "register", "name": nm, "own": nm, "how": r.choice(["create", "register"]),
+                      "tpl": [["T", r.choice(["other instance's ", "== "])]] + self.leaves(0, 2, False, [])}
+            if j:
+                op["on"] = j
+            calls.insert(r.randint(pos_new(j) + 1, len(calls)), op)
+        order = list(range(n_other + 1))
+        r.shuffle(order)
+        for j in order:
+            if r.random() < 0.75:
+                ws = r.sample(stored, min(len(stored), r.randint(1, 2))) if stored else [r.choice(pool)]
+                main = [["P", r.choice(VARS), w] for w in ws]
+                if names and r.random() < 0.5:
+                    main.append(["G", r.choice(names)])
+                main += self.leaves(0, 2, False, names)
+                r.shuffle(main)
+                op = {"main": main, "ctx": ctx()}
+                if j:
+                    op["on"] = j
+                calls.append(op)
+        return {"templates": c["templates"], "calls": calls, "strict": c["strict"], "phase": c["phase"],
+                "filters": c.get("filters", [])}
+
+    def _history1(self):
         """1..4 calls on one instance; a fifth of the histories is built so that an early call raises
         INSIDE an include (strict missing variable / len() of an int in the included template) and
         a later call renders the same include with a good context"""
@@ -845,16 +943,64 @@ def parse_warning(w):
 
 
 def calls_of(case):
-    """the operations made on ONE Ribosome, in order.  An element is
+    """the operations of the history, in order.  An element is
          {"main": ast, "ctx": ctx}                              synthesize(main, **ctx)
          {"op": "render_obj", "own": name, "main", "ctx"}       translate(mRNA(main, name=own) NOT registered, **ctx)
          {"op": "translate", "name": n, "ctx": ctx}             translate(n, **ctx)
          {"op": "register", "name": n, "own": o, "how": h, "tpl": ast}
               h = "create": create_template(tpl, n); "register": register_template(mRNA(tpl, name=n));
-              "register_as": register_template(mRNA(tpl, name=o), name=n)   (o may be another registered name)"""
-    if "calls" in case:
-        return case["calls"]
-    return [{"main": case["main"], "ctx": case["ctx"]}]
+              "register_as": register_template(mRNA(tpl, name=o), name=n)   (o may be another registered name)
+         {"op": "set_filter", "name": n, "kind": k, "how": "assign"|"api"}
+              r.filters[n] = CUSTOM[k]; with "api" through a public registration method (register_filter /
+              add_filter) when the class has one, else the same assignment
+         {"op": "new", "filters": table, "templates": [[name, ast]], "strict": bool}
+              ANOTHER Ribosome in the same process, constructed like the first; it gets the next instance number
+       Every operation but "new" may carry "on": j - the instance it is made on (absent = 0, the instance the
+       case-level keys describe).  An operation addressed to an instance that does not exist yet addresses nothing
+       and is dropped here (it can only arise when a history is shrunk)."""
+    if "calls" not in case:
+        return [{"main": case["main"], "ctx": case["ctx"]}]
+    out, n = [], 1
+    for op in case["calls"]:
+        if op.get("op") == "new":
+            n += 1
+        elif not (0 <= int(op.get("on", 0)) < n):
+            continue
+        out.append(op)
+    return out
+
+
+def op_on(op):
+    return int(op.get("on", 0))
+
+
+def is_new(op):
+    return op.get("op") == "new"
+
+
+def is_setf(op):
+    return op.get("op") == "set_filter"
+
+
+def n_instances(case):
+    return 1 + sum(1 for op in calls_of(case) if is_new(op))
+
+
+def instance_cfg(case, j):
+    """the constructor configuration of instance j -> (templates, filter table, strict)"""
+    if j == 0:
+        return case["templates"], case_filters(case), bool(case["strict"])
+    o = [op for op in calls_of(case) if is_new(op)][j - 1]
+    return o.get("templates") or [], [list(x) for x in (o.get("filters") or [])], bool(o.get("strict"))
+
+
+def table_set(table, name, kind):
+    """dict assignment on the filter table"""
+    for e in table:
+        if e[0] == name:
+            e[1] = kind
+            return
+    table.append([name, kind])
 
 
 # Operations that are TRANSPARENT (no operation of the model: coq_case strips them and they contribute no
@@ -882,10 +1028,18 @@ def is_render(op):
     return op.get("op") in (None, "render_obj", "translate")
 
 
-def registry_at(case, k):
-    """the registered templates just before operation k, in dict order"""
-    reg = [[n, t] for n, t in case["templates"]]
-    for op in calls_of(case)[:k]:
+def state_at(case, k):
+    """(registered templates in dict order, custom filter table, strict) of the instance operation k is addressed
+    to, just before that operation: ITS constructor arguments, then the registrations made and the filters stored
+    on THAT instance so far.  Nothing done to another instance enters."""
+    ops = calls_of(case)
+    j = op_on(ops[k]) if k < len(ops) else 0
+    tpls, table, strict = instance_cfg(case, j)
+    reg = [[n, t] for n, t in tpls]
+    table = [list(x) for x in table]
+    for op in ops[:k]:
+        if is_new(op) or op_on(op) != j:
+            continue
         if op.get("op") == "register" and not is_noop(op):
             nm = reg_name(op)
             for e in reg:
@@ -894,14 +1048,21 @@ def registry_at(case, k):
                     break
             else:
                 reg.append([nm, op["tpl"]])
-    return reg
+        elif is_setf(op):
+            table_set(table, op["name"], op["kind"])
+    return reg, table, strict
+
+
+def registry_at(case, k):
+    """the registered templates (of the instance addressed) just before operation k, in dict order"""
+    return state_at(case, k)[0]
 
 
 def sub_case(case, k):
-    """render operation k of a history as a single-call case on the registry AS IT IS AT THAT MOMENT;
-    None for translate() of a name that is not registered"""
+    """render operation k of a history as a single-call case on the registry and the filter table of ITS instance AS
+    THEY ARE AT THAT MOMENT; None for translate() of a name that is not registered"""
     op = calls_of(case)[k]
-    reg = registry_at(case, k)
+    reg, table, strict = state_at(case, k)
     if op.get("op") == "translate":
         hit = [t for n, t in reg if n == op["name"]]
         if not hit:
@@ -909,9 +1070,26 @@ def sub_case(case, k):
         main = hit[0]
     else:
         main = op["main"]
-    return {**{k: case[k] for k in ("silent", "init", "describe") if k in case},      # same configuration
-            "templates": reg, "strict": case["strict"], "phase": case.get("phase", "free"),
-            "main": main, "ctx": op["ctx"], "filters": case_filters(case)}
+    keys = ("silent", "init", "describe") if op_on(op) == 0 else ("silent",)
+    return {**{k: case[k] for k in keys if k in case},      # same configuration
+            "templates": reg, "strict": strict, "phase": case.get("phase", "free"),
+            "main": main, "ctx": op["ctx"], "filters": table}
+
+
+def project(case, j, k=None):
+    """the history of instance j ALONE: its constructor arguments and the operations addressed to it, in order
+    -> (single-instance case, position of operation k in it)"""
+    tpls, table, strict = instance_cfg(case, j)
+    calls, kk = [], None
+    for idx, op in enumerate(calls_of(case)):
+        if is_new(op) or op_on(op) != j:
+            continue
+        if idx == k:
+            kk = len(calls)
+        calls.append({x: y for x, y in op.items() if x != "on"})
+    keys = ("silent", "init", "describe") if j == 0 else ("silent",)
+    return ({**{x: case[x] for x in keys if x in case}, "templates": [list(t) for t in tpls], "filters": table,
+             "strict": strict, "phase": case.get("phase", "free"), "calls": calls}, kk)
 
 
 def _guard(fn):
@@ -936,8 +1114,8 @@ def _guard(fn):
 
 
 def run_history(case, escd=False):
-    """every operation of the history on ONE fresh Ribosome
-    -> per operation None (registration) | dict(noop=...) (accessors, a registration without a name) |
+    """every operation of the history on fresh Ribosome objects (instance 0 and those the history constructs)
+    -> per operation None (registration, filter store, construction of another instance) | dict(noop=...) (accessors, a registration without a name) |
        dict(text, warnings [(kind, name)], error None|(kind, name))"""
     if case.get("silent", True):
         return _run_history(case, escd)
@@ -951,29 +1129,96 @@ def run_history(case, escd=False):
 LAST_CONSOLE = [""]
 
 
-def _run_history(case, escd=False):
-    from operon_ai.organelles.ribosome import Ribosome, mRNA
-    table = case_filters(case)
+SHARED_STATE_CHANGED = [0]
+
+
+def _shared_state():
+    """every mutable container that hangs off the ribosome MODULE or one of its CLASSES (not off an instance): state
+    of the process.  It is put back after every history, so that each history stands for a process of its own and
+    nothing a history did can reach the next case (or the re-runs made while shrinking)."""
+    from operon_ai.organelles import ribosome as m
+    owners = [m] + [v for v in vars(m).values() if isinstance(v, type) and getattr(v, "__module__", None) == m.__name__]
+    snap = []
+    for o in owners:
+        for k, v in list(vars(o).items()):
+            if not k.startswith("__") and isinstance(v, (dict, list, set)):
+                snap.append((o, k, v, v.copy()))
+    return snap
+
+
+def _restore_shared_state(snap):
+    changed = False
+    for o, k, v, saved in snap:
+        if vars(o).get(k) is not v:
+            setattr(o, k, v)
+            changed = True
+        if v != saved:
+            changed = True
+            v.clear()
+            if isinstance(v, list):
+                v.extend(saved)
+            else:
+                v.update(saved)
+    if changed:
+        SHARED_STATE_CHANGED[0] += 1
+
+
+def _construct(Ribosome, mRNA, templates, table, strict, silent, escd, init=None, describe=False):
     kw = {}
     if table:
         kw["filters"] = py_filters(table, escd)
-    if case.get("init") in ("ctor", "ctor-rot") and case["templates"]:
+    if init in ("ctor", "ctor-rot") and templates:
         # pre-registered templates: the documented `templates=` argument of the constructor; with "ctor-rot" every
         # mRNA's own .name is the NEXT key of the dict (the registry is keyed by the dict key, never by mRNA.name)
-        keys = [name for name, _ast in case["templates"]]
-        own = {k: (keys[(i + 1) % len(keys)] if case["init"] == "ctor-rot" else k) for i, k in enumerate(keys)}
-        kw["templates"] = {name: mRNA(sequence=pr(ast, escd), name=own[name]) for name, ast in case["templates"]}
-    r = Ribosome(strict=case["strict"], silent=bool(case.get("silent", True)), **kw)
+        keys = [name for name, _ast in templates]
+        own = {k: (keys[(i + 1) % len(keys)] if init == "ctor-rot" else k) for i, k in enumerate(keys)}
+        kw["templates"] = {name: mRNA(sequence=pr(ast, escd), name=own[name]) for name, ast in templates}
+    r = Ribosome(strict=strict, silent=silent, **kw)
     if "templates" not in kw:
-        for name, ast in case["templates"]:
-            if case.get("describe"):
+        for name, ast in templates:
+            if describe:
                 r.create_template(pr(ast, escd), name, description="template " + name)
             else:
                 r.create_template(pr(ast, escd), name)
+    return r
+
+
+def _run_history(case, escd=False):
+    snap = _shared_state()
+    try:
+        return _run_history_1(case, escd)
+    finally:
+        _restore_shared_state(snap)
+
+
+def _run_history_1(case, escd=False):
+    from operon_ai.organelles.ribosome import Ribosome, mRNA
+    silent = bool(case.get("silent", True))
+    insts = [_construct(Ribosome, mRNA, case["templates"], case_filters(case), case["strict"], silent, escd,
+                        case.get("init"), bool(case.get("describe")))]
     out = []
     for op in calls_of(case):
         kind = op.get("op")
-        if kind == "stats":
+        if kind == "new":
+            insts.append(_construct(Ribosome, mRNA, op.get("templates") or [], [list(x) for x in (op.get("filters") or [])],
+                                    bool(op.get("strict")), silent, escd))
+            out.append(None)
+            continue
+        r = insts[op_on(op)]
+        if kind == "set_filter":
+            f = py_filters([[op["name"], op["kind"]]], escd)[op["name"]]
+            api = None
+            if op.get("how") == "api":
+                api = next((getattr(r, a) for a in ("register_filter", "add_filter") if callable(getattr(r, a, None))), None)
+            if api is not None:
+                try:
+                    api(op["name"], f)
+                except TypeError:
+                    r.filters[op["name"]] = f
+            else:
+                r.filters[op["name"]] = f
+            out.append(None)
+        elif kind == "stats":
             res = {"noop": "stats", "error": None}
             try:
                 res["stats"] = r.get_statistics()
@@ -1179,7 +1424,19 @@ class C12(Check):
     CASE_TYPE = "case"
     N_QUICK = 1200
     N_THOROUGH = 16000
-    RULE = ("Around every generated history, drawn independently of it: silent=False (35%; the constructor's default - stdout "
+    RULE = ("A quarter of the generated histories is set in a PROCESS WITH 2-3 Ribosome OBJECTS: the other instances are "
+            "constructed at any position (before everything, between operations, after filters were stored elsewhere) with a "
+            "filter table, templates (the same names with the same or other texts, or none) and strict flag of their own; 1-4 "
+            "further operations on any instance: a filter stored after construction (r.filters[w] = f; half of them through a "
+            "public registration method when the class has one; w mostly a word the history writes after a '|' - a default, a "
+            "built-in or a custom filter name - bound to one of the five callables), a render of the history repeated on "
+            "another instance, a registration on another instance under a name the history includes; finally renders on most "
+            "instances that name the stored filters and the registered names. Every render is judged against the reference "
+            "computed from the constructor arguments of ITS OWN instance and the registrations / filter stores made on THAT "
+            "instance so far; a failure that disappears when the operations addressed to the instance are made on a lone "
+            "instance is reported as C12/cross-instance-leak. Module- and class-level containers of ribosome.py are put back "
+            "after every history (each history stands for a process of its own). "
+            "Around every generated history, drawn independently of it: silent=False (35%; the constructor's default - stdout "
             "captured), the initial templates handed to the constructor as templates={name: mRNA} (25%; in 10% every mRNA's own "
             ".name is another key of the dict) or created with a "
             "description (15%), the read-only accessors get_statistics()/list_templates() at 1-3 positions (40%: before the "
@@ -1219,8 +1476,14 @@ class C12(Check):
                   "is empty, any outcome), c12_filter_applied_to_raw_value ({{x|f}} renders f applied to the bound value itself, for each of the "
                   "seven built-in filters and every custom filter of the table), c12_strict_loop_vars / "
                   "c12_strict_unbound_is_error, c12_missing_plain_var_warned, c12_unknown_include_marker, c12_render_uses_current_registry (on one instance every operation of a history - "
-                  "registrations, synthesize, translate by name or of an mRNA object - answers a pure function of the registry at "
-                  "that moment, strict and the operation) with c12_registration_is_assignment. Every theorem is stated for an arbitrary custom filter table (identifier "
+                  "registrations, filters stored after construction, synthesize, translate by name or of an mRNA object - answers a "
+                  "pure function of the filter table and the registry of that instance at that moment, strict and the operation) "
+                  "with c12_registration_is_assignment and c12_filter_store_is_assignment; c12_instances_isolated (in a process with "
+                  "any number of Ribosome objects, created at any moment, the answers of instance j are exactly the history of a "
+                  "lone instance given the operations addressed to j: nothing done to another instance - filters stored, templates "
+                  "registered, renders, exceptions - changes how j reads {{name|word}} or what it includes) and "
+                  "c12_fresh_instance_unaffected (an instance constructed at any moment, whatever state the existing ones are in, "
+                  "behaves as the lone instance of its constructor arguments). Every theorem is stated for an arbitrary custom filter table (identifier "
                   "names bound to callables of a five-member family, possibly replacing built-in filters; the empty table is the "
                   "default Ribosome()); json.dumps / repr / str.title are modelled in Coq (escapes, quoting, surrogate pairs). "
                   "The value type of the theorems "
@@ -1251,15 +1514,18 @@ class C12(Check):
                    "templates and values are otherwise ASCII",
                    "context variable names are identifiers other than template/self/sequence",
                    "custom filter names are distinct identifiers (the syntax {{name|filter}} presumes \\w+ names; a custom name "
-                   "containing other characters is never matched as a filter yet suppresses the default of the same text); the "
-                   "filter table is given at construction and not mutated afterwards (r.filters[...] = ... is not exercised)",
+                   "containing other characters is never matched as a filter yet suppresses the default of the same text); filters "
+                   "are stored after construction by r.filters[name] = f (or a registration method of the class, when there is one); "
+                   "deleting a filter (del r.filters[name]) is not exercised",
+                   "several Ribosome objects live in one process, one thread; objects are not shared between threads",
                    "floats are finite (str, repr and json.dumps of a finite float are the same text); json.dumps is only applied "
                    "to JSON-serialisable values",
                    "str()/repr() of floats and of tuples used as loop items are supplied by the harness (pre-rendered), truthiness of "
                    "a float likewise; direct assignment r.templates[name] = ... and mutation of mRNA.sequence are not exercised "
                    "(no such usage in the repo's code, tests or examples)",
                    "between calls a Ribosome keeps templates, filters, flags and two statistics counters; translate() reads "
-                   "only templates/filters/strict (modelled instance state: templates, strict, a call counter); the counters "
+                   "only templates/filters/strict (modelled instance state: filter table, templates, strict, a call counter; a "
+                   "process is a list of such instances); the counters "
                    "themselves are not observed: get_statistics()/list_templates() are called between operations, but only "
                    "their being without effect on every later render is checked (what they return is outside the property)",
                    "the console output of a non-silent instance is captured and not judged; mRNA objects are built from their "
@@ -1276,7 +1542,8 @@ class C12(Check):
             for _try in range(20):
                 c = g.history()
                 if not (all(len(pr(cl.get("main") or cl.get("tpl") or [])) <= 150 for cl in calls_of(c))
-                        and all(len(pr(t)) <= 150 for _n, t in c["templates"])):
+                        and all(len(pr(t)) <= 150 for _n, t in c["templates"])
+                        and all(len(pr(t)) <= 150 for cl in calls_of(c) if is_new(cl) for _n, t in cl.get("templates") or [])):
                     continue
                 # keep what Coq has to evaluate small
                 try:
@@ -1292,6 +1559,11 @@ class C12(Check):
             out.append(widen(keep, random.Random(f"C12:widen:{self.seed}:{n}:{i}")))
         self.extra_cov["generated_cases_dropped_for_output_size"] = getattr(self, "oversized", 0)
         return out
+
+    def extra_checks(self):
+        # how many histories left a module-level / class-level container of ribosome.py different from how they found
+        # it (it is put back every time); 0 on a tree whose instances share nothing
+        self.extra_cov["histories_that_changed_state_shared_by_all_instances"] = SHARED_STATE_CHANGED[0]
 
     def corpus_cases(self):
         base = [c for _s, c in WITNESSES]
@@ -1388,6 +1660,25 @@ class C12(Check):
              "describe": True,
              "calls": [{"op": "stats"}, {"main": [["G", "t1"], ["V", "m1"]], "ctx": [["name", {"s": "{{m1}}"}]]},
                        {"op": "stats"}, {"main": [["G", "t1"], ["V", "m1"]], "ctx": [["name", {"s": "{{m1}}"}]]}]},
+            # several Ribosome objects in one process: filters stored after construction (also one that replaces a
+            # built-in filter) and registrations on one of them, renders on the others - constructed before and after -
+            # under their own tables: "polite" / "t1" mean something on instance 0 only, "shout" on instance 1 only
+            {"templates": [["t1", [["T", "Dear "], ["P", "who", "polite"]]]], "strict": False, "phase": "adv", "filters": [],
+             "calls": [{"op": "new", "filters": [["shout", "rev"]], "templates": [], "strict": False},
+                       {"main": [["P", "who", "polite"], ["T", " / "], ["P", "who", "shout"], ["G", "t1"]], "ctx": [], "on": 1},
+                       {"op": "set_filter", "name": "polite", "kind": "wrap", "how": "api"},
+                       {"op": "set_filter", "name": "upper", "kind": "parens", "how": "assign"},
+                       {"op": "register", "name": "sig", "own": "sig", "how": "create", "tpl": [["T", "-- "], ["O", "who"]]},
+                       {"main": [["P", "who", "polite"], ["T", " / "], ["P", "who", "upper"], ["G", "sig"]],
+                        "ctx": [["who", {"s": "{{>t1}} bob"}]]},
+                       {"main": [["P", "who", "polite"], ["T", " / "], ["P", "who", "upper"], ["G", "sig"], ["G", "t1"]],
+                        "ctx": [["who", {"s": "{{>t1}} bob"}]], "on": 1},
+                       {"op": "new", "filters": [], "templates": [["t1", [["T", "third"]]]], "strict": True},
+                       {"main": [["P", "who", "polite"], ["T", " / "], ["P", "who", "shout"], ["G", "t1"]], "ctx": [], "on": 2},
+                       {"op": "set_filter", "name": "polite", "kind": "len", "how": "assign", "on": 2},
+                       {"main": [["P", "who", "polite"], ["P", "who", "upper"]], "ctx": [["who", {"s": "{x}"}]], "on": 2},
+                       {"main": [["P", "who", "polite"], ["P", "who", "upper"]], "ctx": [["who", {"s": "{x}"}]]},
+                       {"main": [["P", "who", "polite"], ["P", "who", "upper"]], "ctx": [["who", {"s": "{x}"}]], "on": 1}]},
         ]
         return base + super().corpus_cases()
 
@@ -1436,8 +1727,11 @@ class C12(Check):
             if is_noop(op):                      # transparent: no observation row, no operation of the model
                 traces.append(reals[k])
                 continue
+            if is_new(op):                       # another instance: no observation row (model: SNew)
+                traces.append(None)
+                continue
             if not is_render(op):
-                obs.append([7])
+                obs.append([8] if is_setf(op) else [7])
                 traces.append(None)
                 continue
             sub = sub_case(case, k)
@@ -1453,23 +1747,33 @@ class C12(Check):
         return obs, {"calls": traces, "console": LAST_CONSOLE[0] if not case.get("silent", True) else None}
 
     def coq_case(self, case):
-        T = clist([ctuple(coq_str(n), coq_tpl(t)) for n, t in case["templates"]])
-
         def cctx(ctx):
             return clist([ctuple(coq_str(k), coq_value(v)) for k, v in ctx])
-        items = []
+
+        def cnew(templates, table, strict):
+            T = clist([ctuple(coq_str(n), coq_tpl(t)) for n, t in templates])
+            FT = clist([ctuple(coq_str(n), COQ_CUSTOM[k]) for n, k in table])
+            return f"(SNew {FT} {T} {cbool(strict)})"
+        items = [cnew(*instance_cfg(case, 0))]
+        j = 0
         for op in calls_of(case):
             kind = op.get("op")
             if is_noop(op):
                 continue          # accessors / a registration that raises: stripped, the model must agree without them
+            if kind == "new":
+                j += 1
+                items.append(cnew(*instance_cfg(case, j)))
+                continue
             if kind == "register":
-                items.append(f"(OpRegister {coq_str(reg_name(op))} {coq_tpl(op['tpl'])})")
+                o = f"(OpRegister {coq_str(reg_name(op))} {coq_tpl(op['tpl'])})"
+            elif kind == "set_filter":
+                o = f"(OpSetFilter {coq_str(op['name'])} {COQ_CUSTOM[op['kind']]})"
             elif kind == "translate":
-                items.append(f"(OpTranslate {coq_str(op['name'])} {cctx(op['ctx'])})")
+                o = f"(OpTranslate {coq_str(op['name'])} {cctx(op['ctx'])})"
             else:
-                items.append(f"(OpRender {coq_tpl(op['main'])} {cctx(op['ctx'])})")
-        FT = clist([ctuple(coq_str(n), COQ_CUSTOM[k]) for n, k in case_filters(case)])
-        return ctuple(FT, T, clist(items), cbool(case["strict"]))
+                o = f"(OpRender {coq_tpl(op['main'])} {cctx(op['ctx'])})"
+            items.append(f"(SOn {op_on(op)} {o})")
+        return clist(items)
 
     # -- the property on the implementation ----------------------------------
     def monitor(self, case, obs, trace):
@@ -1497,22 +1801,41 @@ class C12(Check):
             if v is None:
                 continue
             if n > 1:
-                # does the same render pass on a fresh instance holding the CURRENT registry?
+                # does the same render pass on a fresh instance holding the CURRENT registry and filter table?
                 fo, ft = self._run_call(sub, run_real(sub), run_real(sub, True) if not ctx_free(sub) else None)
                 if self._monitor_call(sub, ft) is None:
-                    before = []
-                    for j in range(k):
-                        tj = trace["calls"][j]
-                        if is_noop(ops[j]):
-                            before.append("get_statistics(); list_templates()" if ops[j]["op"] == "stats" else
-                                          f"registration without a name ({ops[j]['how']}) -> {tj.get('raised')!r}")
-                        elif tj is None:
-                            o = ops[j]
-                            before.append(f"register {reg_name(o)!r} ({o['how']}, name={o['name']!r}, mRNA.name={o['own']!r})")
-                        elif tj["real"]["error"]:
-                            before.append("raised " + str(tj["real"]["error"]))
-                        else:
-                            before.append("rendered" + (f" mRNA named {ops[j]['own']!r}" if ops[j].get("op") == "render_obj" else ""))
+                    j = op_on(op)
+
+                    def told(idx):
+                        o, tj = ops[idx], trace["calls"][idx]
+                        who = f"[instance {op_on(o)}] " if n_instances(case) > 1 and not is_new(o) else ""
+                        if is_new(o):
+                            return (f"another Ribosome constructed (filters={[x[0] for x in o.get('filters') or []]}, "
+                                    f"templates={[x[0] for x in o.get('templates') or []]}, strict={bool(o.get('strict'))})")
+                        if is_noop(o):
+                            return who + ("get_statistics(); list_templates()" if o["op"] == "stats" else
+                                          f"registration without a name ({o['how']}) -> {tj.get('raised')!r}")
+                        if is_setf(o):
+                            return who + f"filters[{o['name']!r}] = <{o['kind']}> ({o.get('how', 'assign')})"
+                        if tj is None:
+                            return who + f"register {reg_name(o)!r} ({o['how']}, name={o['name']!r}, mRNA.name={o['own']!r})"
+                        if tj["real"]["error"]:
+                            return who + "raised " + str(tj["real"]["error"])
+                        return who + "rendered" + (f" mRNA named {o['own']!r}" if o.get("op") == "render_obj" else "")
+                    if n_instances(case) > 1:
+                        # the operations addressed to this instance, made on a lone instance: do they render the reference?
+                        pj, kk = project(case, j, k)
+                        _po, ptr = self.run_impl(pj)
+                        psub = sub_case(pj, kk)
+                        if psub is not None and self._monitor_call(psub, ptr["calls"][kk]) is None:
+                            foreign = [told(i) for i in range(k) if is_new(ops[i]) or op_on(ops[i]) != j]
+                            return Violation("C12/cross-instance-leak",
+                                             f"operation {k + 1} of {n}, made on Ribosome instance {j} (its own filters: "
+                                             f"{[x[0] for x in sub['filters']]}, its own templates: {[x[0] for x in sub['templates']]}), "
+                                             f"does not render the expansion under its own configuration, although the operations "
+                                             f"addressed to this instance alone do and so does a fresh instance with the same "
+                                             f"configuration; what was done to OTHER instances before: {foreign}: {v.what}")
+                    before = [told(i) for i in range(k)]
                     return Violation("C12/state-leak",
                                      f"operation {k + 1} of {n} on one Ribosome differs from the same render on a fresh "
                                      f"instance with the current registry (earlier: {before}): {v.what}")
@@ -1662,7 +1985,19 @@ class C12(Check):
             ks.append("cfg:templates-via-constructor" + ("/mRNA.name-is-another-key" if case["init"] == "ctor-rot" else ""))
         if case.get("describe"):
             ks.append("cfg:description")
+        if n_instances(case) > 1:
+            ks.append("instances=%d" % n_instances(case))
         for k, op in enumerate(ops):
+            if is_new(op):
+                ks.append("op:new-instance" + ("/custom-filters" if op.get("filters") else "") +
+                          ("/after-a-filter-was-stored" if any(is_setf(o) for o in ops[:k]) else ""))
+                continue
+            if is_setf(op):
+                ks.append("op:set_filter/" + op.get("how", "assign") + ("/replaces-builtin" if op["name"] in FILTERS else "")
+                          + ("/on-instance>0" if op_on(op) else ""))
+                continue
+            if is_render(op) and n_instances(case) > 1:
+                ks += self._classify_foreign(case, k)
             if is_noop(op):
                 t = trace["calls"][k] or {}
                 if op["op"] == "stats":
@@ -1690,6 +2025,32 @@ class C12(Check):
                 continue
             ks += self._classify_call(sub, trace["calls"][k])
         return sorted(set(ks)) if n > 1 else ks
+
+    def _classify_foreign(self, case, k):
+        """a render on one instance after something was done to ANOTHER one that would matter if it were shared"""
+        ops = calls_of(case)
+        op, j = ops[k], op_on(ops[k])
+        sub = sub_case(case, k)
+        if sub is None:
+            return ["multi:render"]
+        own = {x[0] for x in sub["filters"]} | set(FILTERS)
+        words, incs = set(), set()
+        for ns in [sub["main"]] + [t for _n, t in sub["templates"]]:
+            for nd in ns:
+                for l in ([nd] if nd[0] not in ("I", "E") else nd[3] + ((nd[4] or []) if nd[0] == "I" else [])):
+                    if l[0] == "P":
+                        words.add(l[2])
+                    elif l[0] == "G":
+                        incs.add(l[1])
+        ks = ["multi:render" + ("/on-instance>0" if j else "")]
+        stored = {o["name"] for o in ops[:k] if is_setf(o) and op_on(o) != j}
+        if stored & words:
+            ks.append("multi:render-names-a-filter-stored-on-another-instance" +
+                      ("/unknown-here" if (stored & words) - own else "/known-here-too"))
+        reg_else = {reg_name(o) for o in ops[:k] if o.get("op") == "register" and not is_noop(o) and op_on(o) != j}
+        if reg_else & incs:
+            ks.append("multi:render-includes-a-name-registered-on-another-instance")
+        return ks
 
     def _classify_call(self, case, trace):
         ks = ["phase=" + case["phase"], "strict" if case["strict"] else "lenient",
@@ -1734,6 +2095,12 @@ class C12(Check):
             c["filters"] = common.shrink_list(c["filters"], lambda fs: pred({**c, "filters": fs}))
         if "calls" in c:
             c["calls"] = common.shrink_list(c["calls"], lambda cs: len(cs) > 0 and pred({**c, "calls": cs}))
+            for i, o in enumerate(c["calls"]):           # ... and what the remaining other instances are built with
+                for key in ("filters", "templates"):
+                    if is_new(o) and o.get(key):
+                        o2 = {**o, key: common.shrink_list(o[key], lambda xs: pred({**c, "calls": c["calls"][:i] + [{**o, key: xs}] + c["calls"][i + 1:]}))}
+                        c["calls"] = c["calls"][:i] + [o2] + c["calls"][i + 1:]
+                        o = o2
             if len(c["calls"]) > 1:
                 return c
             if c["calls"][0].get("op") is not None:
